@@ -7,14 +7,27 @@ From GW Require Export Scan.
 Inductive xop :=
 | XOp (o : op)
 | XReset                                       (* a new, empty database (same seed) *)
-| XScan (chain : list cout) (del : bool).      (* scan::scan from the first block; owner::scan = a
+| XScan (chain : list cout) (del : bool)       (* scan::scan from the first block; owner::scan = a
                                                   full refresh of the active account, then this *)
+| XKernel (parent : N) (missing : list N).     (* update_txs_via_kernel: [missing] = ids of the
+                                                  account's entries whose kernel the node lacks *)
+
+(** owner::update_txs_via_kernel (step 2 of update_wallet_state): an outstanding entry of the
+    account that does not have both a debit and a credit, carries a kernel excess, and whose
+    kernel the node has, is marked confirmed *)
+Definition kernel_confirm (w : wallet) (parent : N) (missing : list N) : wallet :=
+  with_log w (map (fun t =>
+    if (t_parent t =? parent) && outstanding t
+       && negb (negb (t_deb t =? 0) && negb (t_cred t =? 0))
+       && t_excess t && negb (existsb (N.eqb (t_id t)) missing)
+    then set_conf t true else t) (w_log w)).
 
 Definition xstep (w : wallet) (x : xop) : wallet * list Z :=
   match x with
   | XOp o => step w o
   | XReset => (empty_wallet, [0%Z])
   | XScan chain del => (scan_repair w chain del, [0%Z])
+  | XKernel parent missing => (kernel_confirm w parent missing, [0%Z])
   end.
 
 Fixpoint xtrace (w : wallet) (ops : list xop) : list (list (list (list Z))) :=
